@@ -9,7 +9,9 @@
 (*      for each own channel, each order of the two halves, each pair of     *)
 (*      validity classes, with and without a restart between the halves,     *)
 (*      with the first half arriving before (orphan) or after the channel    *)
-(*      is in the graph - followed by one good half from each side.          *)
+(*      is in the graph - followed by one good half from each side; and the  *)
+(*      channel's announcement arriving from the network (each validity      *)
+(*      class) at each stage of that life.                                   *)
 EXTENDS GossipProof, Json, Randomization, SequencesExt
 CONSTANTS MaxLen
 VARIABLE hist
@@ -23,8 +25,10 @@ PClass(k) ==
     [] k = 5 -> {RSMsg}
     [] k = 6 -> {m \in ASUniverse : Completing(m) /\ m.bad = "none"}
     [] k = 7 -> {m \in ASUniverse : Completing(m) /\ m.bad # "none"}
+    [] k = 9 -> {m \in RCUniverse : edge[m.c] = "none"}
+    [] k = 10 -> RCUniverse
     [] OTHER -> PUniverse
-PClassSeq == <<1, 1, 2, 2, 3, 3, 4, 5, 6, 6, 6, 7, 7, 8>>
+PClassSeq == <<1, 1, 2, 2, 3, 3, 4, 5, 6, 6, 6, 7, 7, 8, 9, 9, 10>>
 
 GPInit == PInit /\ hist = <<>>
 GPNext == /\ Len(hist) < MaxLen
@@ -44,7 +48,19 @@ Pair(c, s, b1, b2, rs, orphan) ==
             (IF rs = 1 THEN ":restart" ELSE "") \o (IF orphan = 1 THEN ":orphan" ELSE ""),
    sched |-> IF orphan = 1 THEN first \o mid \o <<LCMsg(c)>> \o second \o TailOf(c)
              ELSE <<LCMsg(c)>> \o first \o mid \o second \o TailOf(c)]
+\* the announcement from the network at every stage of the channel's life: before our own announcement,
+\* between the halves (with a restart), after the proof
+Remote(c, b, stage) ==
+  LET rc == <<RCMsg(c, b)>>
+      h1 == <<ASMsg(c, "remote", "none", "party")>>
+      h2 == <<ASMsg(c, "local", "none", "-")>> IN
+  [name |-> "remote:c" \o ToString(c) \o ":" \o b \o ":stage" \o ToString(stage),
+   sched |-> CASE stage = 1 -> rc \o rc \o <<LCMsg(c)>> \o h1 \o h2
+               [] stage = 2 -> h1 \o rc \o <<RSMsg>> \o rc \o <<LCMsg(c)>> \o h2 \o h1
+               [] stage = 3 -> <<LCMsg(c)>> \o h1 \o rc \o h2 \o rc
+               [] stage = 4 -> <<LCMsg(c)>> \o h2 \o h1 \o rc \o <<RCMsg(c, "none")>>]
 Pairs == SetToSeq({Pair(c, s, b1, b2, rs, o) : c \in OwnChans, s \in Sides, b1 \in ASBad, b2 \in ASBad,
-                                               rs \in {0, 1}, o \in {0, 1}})
+                                               rs \in {0, 1}, o \in {0, 1}}) \o
+         SetToSeq({Remote(c, b, st) : c \in OwnChans, b \in RCBad, st \in 1..4})
 ASSUME ndJsonSerialize("pairs.ndjson", Pairs)
 =============================================================================
